@@ -22,6 +22,10 @@ type entry struct {
 	doc     string
 	needAST bool
 	prepare func(sql string) (call func() string, ok bool)
+	// tree is set instead of prepare for the entry points that consume a parsed tree; the harness
+	// parses the input itself (outside the measured window, but under the same growth rule so that a
+	// family on which parsing is super-linear does not run away)
+	tree func(t *ast.AST) string
 }
 
 // sink keeps results alive so that the compiler cannot drop a call.
@@ -41,16 +45,6 @@ func defaultLinter() *linter.Linter {
 		style.NewAliasingConsistencyRule(true),
 		keywords.NewKeywordCaseRule(keywords.CaseUpper),
 	)
-}
-
-func onTree(f func(t *ast.AST) string) func(sql string) (func() string, bool) {
-	return func(sql string) (func() string, bool) {
-		t, err := gosqlx.Parse(sql)
-		if err != nil || t == nil {
-			return nil, false
-		}
-		return func() string { return f(t) }, true
-	}
 }
 
 func errClass(err error) string {
@@ -97,13 +91,13 @@ func entries() []entry {
 				return func() string { return errClass(gosqlx.Validate(sql)) }, true
 			}},
 		{name: "AST.SQL", doc: "AST.SQL() of the parsed tree", needAST: true,
-			prepare: onTree(func(t *ast.AST) string { sink = t.SQL(); return "ok" })},
+			tree: (func(t *ast.AST) string { sink = t.SQL(); return "ok" })},
 		{name: "AST.Format", doc: "AST.Format(ReadableStyle) of the parsed tree", needAST: true,
-			prepare: onTree(func(t *ast.AST) string { sink = t.Format(ast.ReadableStyle()); return "ok" })},
+			tree: (func(t *ast.AST) string { sink = t.Format(ast.ReadableStyle()); return "ok" })},
 		{name: "AST.FormatCompact", doc: "AST.Format(CompactStyle) of the parsed tree", needAST: true,
-			prepare: onTree(func(t *ast.AST) string { sink = t.Format(ast.CompactStyle()); return "ok" })},
+			tree: (func(t *ast.AST) string { sink = t.Format(ast.CompactStyle()); return "ok" })},
 		{name: "Scan", doc: "pkg/sql/security Scanner.Scan(tree)", needAST: true,
-			prepare: onTree(func(t *ast.AST) string { sink = security.NewScanner().Scan(t); return "ok" })},
+			tree: (func(t *ast.AST) string { sink = security.NewScanner().Scan(t); return "ok" })},
 		{name: "ScanSQL", doc: "pkg/sql/security Scanner.ScanSQL(text)",
 			prepare: func(sql string) (func() string, bool) {
 				return func() string { sink = security.NewScanner().ScanSQL(sql); return "ok" }, true
@@ -125,7 +119,7 @@ func entries() []entry {
 				}, true
 			}},
 		{name: "Extract", doc: "gosqlx.ExtractTables/TablesQualified/Columns/ColumnsQualified/Functions/Metadata on the parsed tree", needAST: true,
-			prepare: onTree(func(t *ast.AST) string {
+			tree: (func(t *ast.AST) string {
 				sink = gosqlx.ExtractTables(t)
 				sink = gosqlx.ExtractTablesQualified(t)
 				sink = gosqlx.ExtractColumns(t)
